@@ -5,6 +5,7 @@ import (
 	"crypto/sha1"
 	"fmt"
 	"io"
+	"strings"
 	"sync"
 	"sync/atomic"
 
@@ -163,6 +164,28 @@ func Run(ctx *common.Ctx) int {
 	var samples []interface{}
 	var smu sync.Mutex
 	capped := false
+	// a healthy source judged earlier in the same process (a device that gets stuck later): the parallel variants are
+	// first called on a healthy stream, and again before every second bad stream; nothing of those calls may leak
+	healthyPeriod := make([]byte, 50*125000+64)
+	hx := uint64(88172645463325252)
+	for i := range healthyPeriod {
+		hx ^= hx << 13
+		hx ^= hx >> 7
+		hx ^= hx << 17
+		healthyPeriod[i] = byte(hx >> 23)
+	}
+	primed := map[string]string{}
+	for _, fn := range fns {
+		if !strings.HasSuffix(fn.name, "Fast") {
+			continue
+		}
+		if quick && fn.name == "FactoryDetectFast" {
+			continue // 50 real rounds on 10^6 bits: thorough only
+		}
+		v, err := fn.f(&periodic{period: healthyPeriod})
+		primed[fn.name] = fmt.Sprint(v, " ", err)
+		evals++
+	}
 	rejectedBy := common.NewCounter()
 	common.ParFor(len(streams), func(si int) {
 		st := streams[si]
@@ -173,6 +196,9 @@ func Run(ctx *common.Ctx) int {
 			}
 			var v bool
 			var err error
+			if _, ok := primed[fn.name]; ok && si%2 == 0 {
+				_, _ = fn.f(&periodic{period: healthyPeriod}) // memoised: costs only the reads
+			}
 			pv := common.Catch(func() { v, err = fn.f(&periodic{period: st.period}) })
 			atomic.AddInt64(&evals, 1)
 			key := fmt.Sprintf("%s/%s", fn.name, st.name)
@@ -209,12 +235,12 @@ func Run(ctx *common.Ctx) int {
 		lens = append(lens, 1<<23, 1<<24, 1<<24+1, 12500000)
 	}
 	healthy := make([]byte, 8192)
-	hx := uint32(2463534242)
+	hy := uint32(2463534242)
 	for i := range healthy {
-		hx ^= hx << 13
-		hx ^= hx >> 17
-		hx ^= hx << 5
-		healthy[i] = byte(hx >> 9)
+		hy ^= hy << 13
+		hy ^= hy >> 17
+		hy ^= hy << 5
+		healthy[i] = byte(hy >> 9)
 	}
 	for li, l := range lens {
 		for _, b := range []byte{0x00, 0xFF} {
